@@ -27,7 +27,7 @@ var rules = []*Rule{
 	{ID: "R12", Title: "EFFECT-CONFINEMENT: who can change a log file", Props: []string{"C19", "C20", "C07", "C11", "C13"}, Run: func(p *Prog) []Ob { return append(ruleR12(p), p.indexConfinement()...) }},
 	{ID: "R15", Title: "FLOCK-PAIRING", Props: []string{"C19", "C02"}, Run: ruleR15},
 	{ID: "R14", Title: "NOTIFY: publish-then-set, probe-under-token", Props: []string{"C18"}, Run: ruleR14},
-	{ID: "R13", Title: "SEGMENT-NAMES: what New prints, Find parses, and sorts", Props: []string{"C01", "C02", "C20"}, Run: func(p *Prog) []Ob { return append(ruleR13(p), p.findAdoptsAll()) }},
+	{ID: "R13", Title: "SEGMENT-NAMES: what New prints, Find parses, and sorts", Props: []string{"C01", "C02", "C20", "C05"}, Run: func(p *Prog) []Ob { return append(ruleR13(p), p.findAdoptsAll()) }},
 	{ID: "R16", Title: "INDEX-OPTIONAL: an index file may always be missing", Props: []string{"C11", "C07", "C08", "C20"}, Run: func(p *Prog) []Ob { return append(append(ruleR16(p), p.reindexThresholdObligation()), p.rebuildUnderIndexLock()...) }},
 	{ID: "R19", Title: "VERSION-DISPATCH exhaustive", Props: []string{"C17", "C13"}, Run: func(p *Prog) []Ob {
 		return append(append(append(ruleR19(p), p.keepRewriteVersionObligations()...), p.configuredVersionVerbatim()...), p.eagerMigrationByOption()...)
@@ -55,7 +55,7 @@ var rules = []*Rule{
 		return append(append(append(ruleR36(p), p.indexWrappers()...), p.statFresh()...), p.siblingOutcomes()...)
 	}},
 	{ID: "R39", Title: "PARAMS-FROM-OPTIONS", Props: []string{"C13", "C11"}, Run: ruleR39},
-	{ID: "R40", Title: "ERROR-DISCIPLINE: no error is dropped outside the clean-up idioms", Props: []string{"C06", "C05", "C01", "C14"}, Run: ruleR40},
+	{ID: "R40", Title: "ERROR-DISCIPLINE: no error is dropped outside the clean-up idioms", Props: []string{"C06", "C05", "C01", "C14", "C11", "C12", "C17", "C20"}, Run: ruleR40},
 	{ID: "R37", Title: "FINDER-SHAPE: cursor, selection, bound and key discipline of the trim/compaction finders", Props: []string{"C15", "C16"}, Run: ruleR37},
 	{ID: "R38", Title: "TRIM-PLUMBING: a wrapper deletes exactly what its finder selected", Props: []string{"C15", "C16", "C12"}, Run: ruleR38},
 	{ID: "R4", Title: "LOCK-ORDER: acyclic acquisition graph, no re-acquisition", Props: []string{"C08"}, Run: ruleR4},
